@@ -245,6 +245,9 @@ void World::CheckTermination(const InvRecord& r) {
   // work conservation, by hindsight: a ppoll that let time pass although a
   // command started later was startable at that instant
   if (r.plan.l > 0 || r.plan.dry || !r.plan.tool.empty() || r.plan.jobserver) return;
+  // an alias that sits in a pool waits for a slot of that pool like a command; what is behind it
+  // is not startable before, whatever its own pool says (not modelled: skipped)
+  for (const Stmt& s : sc.stmts) if (s.alive && s.phony && !s.pool.empty()) { stats->n["idle_check_skipped_pooled_alias"]++; return; }
   // a dyndep file produced during the build changes what is wanted mid-build
   for (const SpawnRec& x : r.spawns) for (auto& o : x.outs) if (sc.FindDyndep(o)) return;
   // ... and so does one that is merely loaded mid-build (its producer had nothing to do but was
